@@ -151,7 +151,8 @@ where
         )))
     }
 
-    /// Try to decrypt using the current exporter secret and if fails try with the past ones until a max lookback of [`DEFAULT_EPOCH_LOOKBACK`].
+    /// Try to decrypt using the current exporter secret and if fails try with the past ones until a max lookback of
+    /// [`DEFAULT_EPOCH_LOOKBACK`] or the configured `max_past_epochs`, whichever is larger.
     pub(super) fn try_decrypt_with_recent_epochs(
         &self,
         mls_group: &MlsGroup,
@@ -172,12 +173,11 @@ where
                     "Failed to decrypt message with current exporter secret. Trying with past ones."
                 );
 
-                // Try with past exporter secrets
-                self.try_decrypt_with_past_epochs(
-                    mls_group,
-                    encrypted_content,
-                    DEFAULT_EPOCH_LOOKBACK,
-                )
+                // Try with past exporter secrets. The outer layer must look back at least as
+                // far as the MLS layer retains past-epoch secrets (`max_past_epochs`), otherwise
+                // messages OpenMLS could still decrypt are lost at the NIP-44 layer.
+                let lookback = DEFAULT_EPOCH_LOOKBACK.max(self.config.max_past_epochs as u64);
+                self.try_decrypt_with_past_epochs(mls_group, encrypted_content, lookback)
             }
         }
     }
